@@ -106,7 +106,8 @@ def gen(cls, idx, rng, tier):
         elif k < .8:
             ops.append((rng.choice(["tell", "len", "address", "flush"]), v))
         elif cls == "lifecycle" and k < .88 or k < .815:
-            ops.append((rng.choice(["close", "close", "with"]), v))
+            ops.append((rng.choice(["close", "close", "with", "with_raise"]),
+                        v))
         elif cls == "lifecycle" and k < .91 or k < .82:
             ops.append(("free",))
         else:
@@ -244,11 +245,11 @@ def run(case, ctx):
                       "free-wrong-pointer", repr(frees), **where)
                 freed = True
             continue
-        if kind in ("close", "with"):
+        if kind in ("close", "with", "with_raise"):
             if not dead:
                 check(exc is None, "close-failed", repr(exc), **where)
             v.closed = v.closed or exc is None
-            if kind == "with" and not freed:
+            if kind.startswith("with") and not freed:
                 check(v.obj.closed, "with-block-left-view-open", "", **where)
             continue
         if kind == "len":
@@ -408,6 +409,10 @@ def run(case, ctx):
     return "ok"
 
 
+class _BodyFailed(Exception):
+    pass
+
+
 def do(op, v, views, mcm):
     kind = op[0]
     o = v.obj
@@ -436,6 +441,13 @@ def do(op, v, views, mcm):
             if inner is not o:
                 raise AssertionError("__enter__ returned another object")
         return None
+    if kind == "with_raise":
+        # the block is left by an exception: the view is closed all the same
+        try:
+            with o:
+                raise _BodyFailed()
+        except _BodyFailed:
+            return None
     if kind == "free":
         return views[0].obj.free()
     raise AssertionError(kind)
